@@ -381,7 +381,10 @@ class World:
             elif verdict == "ok":
                 sync = well_typed and len(msgs) == cnt
             else:
-                sync = (not ev["ok"]) and ev["exc"]["proto"]
+                # the documented outcome is a ProtocolError; any exception counts as "refused" here - its class is judged by the
+                # properties that speak about it (C05, C09) - so that the state after it is still compared with the model
+                sync = not ev["ok"]
+                ev["foreign"] = (not ev["ok"]) and not ev["exc"]["proto"]
 
             ev["sync"] = sync
             if sync:
